@@ -11,7 +11,7 @@ PROPERTY = 'C18'
 LEVEL = 'exploration'
 SLACK = 0.05
 RULE = ('cases = seeded random histories of 1..6 operations (reads and writes, single frame and multi packet) on the same client and server objects, '
-        'each operation either well-formed or failing in one of these ways: wrong key (client algorithm differs), refusal by the application at the '
+        'each operation either well-formed or failing in one of these ways: wrong key (off by one, FFFF, 0000, the seed itself, the user level, byte-swapped), refusal by the application at the '
         'proceed callback, refusal at respond(False, error, EDCP 6/7) with defined and undefined error codes, an error DM15 from a scripted server '
         'for every code of J1939Error and undefined ones, or an absent server; seed/key on in 70 % of the cases with seeds from {0000, 0001, FFFE, '
         'FFFF} and random; oracle: with seed/key configured the proceed/notify callbacks run and a DM16 leaves the server only after a DM14 carrying '
@@ -63,6 +63,18 @@ def wrong_algo(seed):
     return (D.default_algo(seed) + 1) & 0xFFFF
 
 
+def _never_right(f):
+    def g(seed):
+        k = f(seed) & 0xFFFF
+        return k if k != D.default_algo(seed) else (k ^ 1)
+    return g
+
+
+# plausible wrong keys: off by one, "no key" (FFFF), zero, the seed itself, the user level the first DM14 carried, byte-swapped right key
+WRONG_ALGOS = [wrong_algo, _never_right(lambda s: 0xFFFF), _never_right(lambda s: 0x0000), _never_right(lambda s: s), _never_right(lambda s: 7),
+               _never_right(lambda s: ((D.default_algo(s) >> 8) | (D.default_algo(s) << 8)))]
+
+
 def run_case(case):
     rng = random.Random(case['seed'])
     seedkey = rng.random() < 0.7
@@ -90,7 +102,8 @@ def run_case(case):
         op['fail'] = fail
         op['timeout'] = rng.choice([0.3, 1, 2])
         if fail == 'wrong_key':
-            op['pre'] = lambda dw: (dw.cli.set_seed_key_algorithm(wrong_algo), dw.ctx.update(accept=True, respond=('ok',)))
+            wa = rng.choice(WRONG_ALGOS)
+            op['pre'] = lambda dw, wa=wa: (dw.cli.set_seed_key_algorithm(wa), dw.ctx.update(accept=True, respond=('ok',)))
         elif fail == 'refuse_proceed':
             op['pre'] = lambda dw: (dw.cli.set_seed_key_algorithm(D.default_algo) if seedkey else None, dw.ctx.update(accept=False, respond=('ok',)))
         elif fail == 'refuse_respond':
